@@ -157,7 +157,8 @@ def gen_motif_world(rng, tier):
                           ('if_else', 2), ('if_range', 2), ('ifs', .7),
                           ('iferror_fb', 1), ('iferror_val', .8),
                           ('ifna_fb', .4), ('iserror', .6), ('count', .8),
-                          ('name', .8), ('guard', .6)])
+                          ('name', .8), ('guard', .6), ('if_nested', 1),
+                          ('ifs2', .6)])
         if k == 'strict':
             return ref(v)
         if k == 'range':
@@ -167,6 +168,13 @@ def gen_motif_world(rng, tier):
             return ['f', 'IF', guard(), ref(v), ['n', rng.randrange(0, 4)]]
         if k == 'if_else':
             return ['f', 'IF', guard(), ['n', rng.randrange(0, 4)], ref(v)]
+        if k == 'if_nested':
+            inner = ['f', 'IF', guard(), ref(v), ['n', 1]]
+            return ['f', 'IF', guard()] + ([inner, ['n', 2]] if rng.chance(.5)
+                                           else [['n', 2], inner])
+        if k == 'ifs2':
+            return ['f', 'IFS', guard(), ['n', 1], guard(), ref(v),
+                    ['b', True], ['n', 3]]
         if k == 'if_range':
             a, b = ['f', 'SUM', rect_around(v)], ['n', 1]
             return ['f', 'IF', guard()] + ([a, b] if rng.chance(.5)
